@@ -27,6 +27,7 @@ import (
 	"github.com/sboehler/knut/cmd/flags"
 	"github.com/sboehler/knut/cmd/importer"
 	"github.com/sboehler/knut/lib/amounts"
+	"github.com/sboehler/knut/lib/common/compare"
 	"github.com/sboehler/knut/lib/journal"
 	"github.com/sboehler/knut/lib/model"
 	"github.com/sboehler/knut/lib/model/posting"
@@ -208,7 +209,15 @@ func (p *parser) parseBooking() error {
 }
 
 func (p *parser) addBalances() {
-	for k, bal := range p.balance {
+	// in a fixed order: the printed journal must not depend on map iteration
+	keys := p.balance.Index(func(k1, k2 amounts.Key) compare.Order {
+		if o := compare.Time(k1.Date, k2.Date); o != compare.Equal {
+			return o
+		}
+		return compare.Ordered(k1.Commodity.Name(), k2.Commodity.Name())
+	})
+	for _, k := range keys {
+		bal := p.balance[k]
 		p.builder.Add(&model.Assertion{
 			Date: k.Date,
 			Balances: []model.Balance{
